@@ -17,7 +17,10 @@ import (
 // SendBundle transmits an outbounding bundle.
 func (c *Core) SendBundle(bndl *bpv7.Bundle) {
 	// The sequence number must be assigned before the bundle is signed or filed in the store under its ID.
-	c.idKeeper.update(bndl)
+	// An ID which is still known to the store, e.g., from before a restart, must not be given out again.
+	for c.idKeeper.update(bndl); c.store.KnowsBundle(bndl.ID()); {
+		c.idKeeper.update(bndl)
+	}
 
 	if c.signPriv != nil && bndl.IsAdministrativeRecord() {
 		c.sendBundleAttachSignature(bndl)
